@@ -139,7 +139,7 @@ class Run:
         if len(same) >= self.MAX_PER_OBLIGATION:
             same[-1]["more_inputs"] = same[-1].get("more_inputs", 0) + 1
             return True
-        d = os.path.join(VERIF, "replays", self.pid)
+        d = os.path.join(os.environ.get("VERIF_REPLAY_DIR", os.path.join(VERIF, "replays")), self.pid)
         os.makedirs(d, exist_ok=True)
         h = hashlib.sha1((obligation + "|" + signature).encode()).hexdigest()[:10]
         path = os.path.join(d, f"{h}.json")
@@ -229,8 +229,9 @@ class Run:
         cov.update(self.extra)
         ev = dict(property_id=self.pid, tier=self.tier, seed=self.seed, level=self.level, coverage=cov,
                   assumptions=self.assumptions, wall_s=round(wall, 2), violations=len(self.violations))
-        os.makedirs(os.path.join(VERIF, "evidence"), exist_ok=True)
-        with open(os.path.join(VERIF, "evidence", f"{self.pid}.json"), "w") as f:
+        evdir = os.environ.get("VERIF_EVIDENCE_DIR", os.path.join(VERIF, "evidence"))
+        os.makedirs(evdir, exist_ok=True)
+        with open(os.path.join(evdir, f"{self.pid}.json"), "w") as f:
             json.dump(jsonable(ev), f, indent=1)
         for h in self.known_hits:
             print(f"KNOWN-FINDING: property={self.pid} {h['obligation']} [{h['signature']}] {h['what']}")
